@@ -141,6 +141,31 @@ def check(rep, tier):
           for v in rep.violations[nv0:]:
               if pre:
                   v["what"] = pre + v["what"]
+    # ---- process history: a configuration FILE that is rewritten between two objects -- the second object follows the constants the file
+    #      holds when it is built (compared bit for bit with an object built from a fresh file of the same content) ----
+    import os, yaml
+    for hi in range(2 if tier == "quick" else 8):
+        cfgA = fr.gen_config(rng, max_vials=12, max_steps=300); cfgB = dict(cfgA)
+        cfgA["over"] = dict(cfgA["over"], solution={"solid_fraction": 0.03, "cp_s": 1500}, water={"cp_w": 4000})
+        cfgB["over"] = dict(cfgB["over"], solution={"solid_fraction": 0.12, "cp_s": 1100}, vial={"geometry": {"height": 0.02, "length": 0.012, "width": 0.01}})
+        path = os.path.join(impl.scratch(), "rewritten_%d.yaml" % hi)
+        try:
+            with impl.quiet():
+                sfm = impl.snowflake_mod()
+                def build_at(cfg, p_):
+                    op = fr.gen_opcond.build(cfg["prog"], impl.opcond_mod(), cnTemp=cfg.get("cnTemp"))
+                    return sfm.Snowflake(k=dict(cfg["k"]), N_vials=cfg["shape"], initialStates={"temp": cfg["T_init"], "sigma": None}, storeStates="all",
+                                         solidificationThreshold=cfg.get("thr", 0.9), dt=cfg["dt"], seed=cfg["seed"], seed_v=cfg["seed_v"], opcond=op, configPath=p_, initIce=cfg["initIce"])
+                open(path, "w").write(yaml.safe_dump(cfgA["over"])); SA = build_at(cfgA, path); SA.run()
+                open(path, "w").write(yaml.safe_dump(cfgB["over"])); SB = build_at(cfgB, path); SB.run()
+                SF_ = build_at(cfgB, impl.cfg_path(cfgB["over"])); SF_.run()
+            rep.case("rewritten-config %d" % hi, nontrivial=True); rep.count("rewritten-config-file")
+            if not (np.array_equal(np.array(SB.X_T), np.array(SF_.X_T), equal_nan=True) and np.array_equal(np.array(SB.X_sigma), np.array(SF_.X_sigma), equal_nan=True)):
+                k = int(np.argmax((np.array(SB.X_T) != np.array(SF_.X_T)).any(axis=0)))
+                rep.violation("stale-constants-after-config-rewrite", "an object built after its configuration file was rewritten does not follow the file's current constants: first difference from an "
+                              "object built from a fresh file with the same content in column %d (%s)" % (k, cfgB["shape"]), dict(config=cfgB, first_file=cfgA["over"], history=["write A", "build+run", "write B to the same path", "build+run"]))
+        except Exception as e:
+            rep.violation("crash %s" % type(e).__name__, "rewritten-config history raises %r" % e, dict(config=cfgB, error=repr(e)))
     rc, out = common.coq_eval("c01_0", HEAD % (coq_list(step_cases), coq_list(c for _, c in run_cases)), timeout=1500)
     blocks = common.eval_blocks(out)
     if rc != 0 or len(blocks) != 2:
